@@ -164,8 +164,10 @@ NSProbe(cfg, st, req, out) ==
                ELSE IF new \in st.obs THEN {st.obs}                      \* identical repeat
                ELSE IF collide # {}                                      \* freedom KeyCollisionKeepsEither
                     THEN {st.obs, (st.obs \ collide) \cup {new}, st.obs \cup {new}}
-               ELSE IF Cardinality(st.obs) >= ObsCapFloor                \* freedom CapAnyAtLeast300
-                    THEN {st.obs, st.obs \cup {new}}
+               ELSE IF Cardinality(st.obs) >= ObsCapFloor                \* freedom CapAnyAtLeast300: a cap may drop it;
+                    THEN (IF req.grew = "yes" THEN {st.obs \cup {new}}      \* whether it did is read off the allocation
+                          ELSE IF req.grew = "no" THEN {st.obs}              \* ledger (one more node retained or not),
+                          ELSE {st.obs, st.obs \cup {new}})                 \* so the monitor does not branch per frame
                ELSE {st.obs \cup {new}}
   IN IF Chk("C02") => Frames(out) = << >>
      THEN {[st EXCEPT !.obs = o] : o \in nexts} ELSE {}
